@@ -10,6 +10,31 @@ CHECKS = {
    text="Threshold.tla states the property (count of distinct authorized in-table keys with a valid signature over this content) and transcribes both counting loops of verify.rs; TLC proves them equal for every signature list within bounds, and every TLC-enumerated list is realised with real keys (Ed25519, ECDSA-P256, RSA-PSS) at each of the 8 verification sites plus the two public verify_role functions and decided by the real code.",
    note="Trusted: TLC, the abstraction of a signature as valid exactly for (key, content), the harness's own canonical JSON / SHA-256 / aws-lc-rs signer. Lists longer than 5 and more than 4 keys are not explored.",
    technique="TLA+ model (TLC exhaustive) + replay of every enumerated case into the real verifier and client"),
+
+ "C02": dict(cat="model_checking", design="5 C02",
+   text="TufClient.tla models the root walk of load_root action by action; MC_RootChain lets the server answer every request for a newer root with any key configuration, any signer set, a version one lower/equal/one higher, unparsable, oversized, endless or failing streams, and signs later roles with online keys of any epoch. TLC checks WalkDoublySigned, WalkEndsAtRoot, NeverBelowShipped, RootReqsConsecutive, ShippedMustSelfVerify, TrustedVerified on every state; every TLC path is replayed through RepositoryLoader::load with real keys (Ed25519, ECDSA, RSA) and the recorded trace (requests, served documents, result, versions, datastore) is validated by TLC against the same actions (Trace_Client strict), falling back to the observational restatement of the property for traces the model cannot explain.",
+   note="Trusted: TLC, signer-set abstraction of signatures, harness canonical JSON/signing. Chains up to 4 published versions (check) / 2-3 (replay), 4 key configurations.",
+   technique="TLA+ model (TLC exhaustive) + replay of every behaviour into the real client + TLC trace validation"),
+ "C03": dict(cat="model_checking", design="5 C03",
+   text="TufClient.tla over several cycles sharing the datastore; MC_Rollback serves genuinely signed files of every version and key epoch, withholds roots, ships any root, over 7 root chains (rotation, rotate-back, threshold, overlap, re-order). TLC checks RollbackSafe (modulo the recorded finding F2 where it applies), NoLockout and the per-cycle invariants; all 2-cycle histories (thorough: plus simulated 6-cycle histories with versions up to 2^63-1) are replayed on one real datastore directory and the recorded traces validated by TLC.",
+   note="Trusted: as C02. F2 (trusted root not persisted) is recorded in known_findings.json; pairs of cycles in its two scenario classes print KNOWN-FINDING, any other lower version is a VIOLATION.",
+   technique="TLA+ model (TLC exhaustive, 3 cycles) + replay + TLC trace validation"),
+ "C04": dict(cat="model_checking", design="5 C04",
+   text="TufClient.tla with the clock, latest_known_time and enforcement as state; MC_Freeze expires every subset of roles and an intermediate root and lets the clock jump between any two phases and before reads. TLC checks UnsafeNeverFailsForTime, ReadAfterExpiryFails, NeverExpiredWrongly, ClockBackFails, TargetsFreshAtEnd; every path is replayed with the scripted clock hook at tick sizes of 2 s, 1 day and 400 days, and the recorded traces (including the clock samples the library actually took) are validated by TLC; the observational mode restates the property over samples, expiries and results.",
+   note="Trusted: TLC, the clock hook (adds a scripted offset inside Datastore::system_time), expiry instants placed strictly between ticks so that <= vs < at the boundary is not exercised.",
+   technique="TLA+ model (TLC exhaustive) + replay with scripted clock + TLC trace validation"),
+ "C05": dict(cat="model_checking", design="5 C05",
+   text="TufClient.tla with pins (version, digest as file identity, length) and byte variants; MC_Pins combines any published timestamp pin with any published snapshot/targets file (version, spelling, size). TLC checks PinsMatch and ConsistentNames; every path is replayed and the recorded requests and results validated by TLC.",
+   note="Trusted: TLC, SHA-256 modelled as injective, harness padding/re-spelling of files. Delegated-role pins are covered by the delegation module (C07/C09), not here.",
+   technique="TLA+ model (TLC exhaustive) + replay + TLC trace validation"),
+ "C09": dict(cat="model_checking", design="5 C09",
+   text="Cycle level: TufClient.tla/MC_Bounds serves oversized and endless streams for every request, never-ending chains of valid roots, every relation of size, pinned length and limit (including limit 0 and size-1 byte); TLC checks SizesBounded, RequestsBounded, RootRequestsBounded, LegitNotRefused; replays run with 1 KiB transport chunks and the bytes actually pulled per request are checked against the bound inside the trace specification.",
+   note="Trusted: as C02; unit 4096 bytes. Delegation graphs with cycles are handled by the delegation check once built.",
+   technique="TLA+ model (TLC exhaustive) + replay + TLC trace validation with per-request byte counts"),
+ "C14": dict(cat="model_checking", design="5 C14",
+   text="Same model as C03 (MC_Rollback chains rotating timestamp keys, snapshot keys, overlapping sets, none); TLC checks RecoversAfterRotation for every history; replays use concrete versions 1, 2^40, 2^63-1; traces validated by TLC. The F2 facet (cycle started from a shipped root other than the one trusted last) is a recorded finding.",
+   note="Trusted: as C03. 'Replaces the keys' is read as a net change of the key set between the root of the previous successful cycle and the final root of this cycle.",
+   technique="TLA+ model (TLC exhaustive) + replay with inflated versions + TLC trace validation"),
 }
 NA_REASON = "check not built yet in this round (planned, see DESIGN.md section 5); not claimed"
 
